@@ -42,7 +42,8 @@ def rand_value(r, depth=0, maxdepth=4):
 
 
 def rand_scalar(r):
-    return r.choice([0, 1, 2, -1, True, False, 1.0, 0.0, 2.5, None, "a", "b", "", "ab", 10 ** 9, 1e-9])
+    return r.choice([0, 1, 2, -1, True, False, 1.0, 0.0, 2.5, None, "a", "b", "", "ab", 10 ** 9, 1e-9,
+                     0.3, 0.1 + 0.2, 1e22, 2 ** 53, 2 ** 53 + 1])
 
 
 def rand_string(r):
@@ -125,5 +126,7 @@ def _type_twist(r, x):
     if isinstance(x, int):
         return r.choice([float(x), x + 1, bool(x) if x in (0, 1) else x + 2])
     if isinstance(x, float):
-        return r.choice([int(x) if x == int(x) else x + 1, x + 0.5])
+        import math
+        # also the NEXT representable double: equal to 15-16 significant digits, different as JSON text (repr round-trips)
+        return r.choice([int(x) if x == int(x) else x + 1, x + 0.5, math.nextafter(x, math.inf), math.nextafter(x, -math.inf)])
     return rand_scalar(r)
